@@ -244,6 +244,19 @@ func rulesC07(c *Ctx) {
 				}
 			}
 		}
+		// a private helper that does the buffer removal itself (possibly steered by a constant flag)
+		if !removed {
+			for _, ri := range reachWithBools(f, 2) {
+				if ri.fn == f || ri.fn.Pkg != f.Pkg {
+					continue
+				}
+				for _, inner := range Calls(ri.fn) {
+					if inner.Method != nil && inner.Method.Name() == mn && fromField(inner.Recv(), buffer) && presentAt(ri.fn, inner.Block) && feasibleUnder(ri.fn, inner.Instr, ri.env) {
+						removed = true
+					}
+				}
+			}
+		}
 		_ = facts
 		why := ""
 		if len(b1) > 0 {
